@@ -30,18 +30,19 @@ type wop struct {
 func (o wop) String() string { return fmt.Sprintf("%s(%d)", o.kind, o.target) }
 
 type c11World struct {
-	nch       int
-	v2        bool
-	key       *[32]byte
-	programs  [][]wop
-	pacing    sim.Pacing
-	incoming  int
-	useClosed bool
+	nch           int
+	v2            bool
+	key           *[32]byte
+	programs      [][]wop
+	pacing        sim.Pacing
+	incoming      int
+	useClosed     bool
+	overflowFirst int // -1, or the channel that goes through a queue overflow (and recovers) before the program starts
 }
 
 func (w *c11World) describe() string {
 	var b strings.Builder
-	fmt.Fprintf(&b, "channels=%d v2=%v outKey=%v pacing=%+v incoming=%d\n", w.nch, w.v2, w.key != nil, w.pacing, w.incoming)
+	fmt.Fprintf(&b, "channels=%d v2=%v outKey=%v pacing=%+v incoming=%d overflowBeforeProgram=%d\n", w.nch, w.v2, w.key != nil, w.pacing, w.incoming, w.overflowFirst)
 	for p, prog := range w.programs {
 		fmt.Fprintf(&b, " producer %d:", p)
 		for _, o := range prog {
@@ -71,7 +72,7 @@ func fwdFrame(p, i int, v2, raw bool) (frame.Frame, ref.Frame) {
 
 func TestC11FanOut(t *testing.T) {
 	rec := evid.New(t, "C11", "2..5 channels on custom transports, 1..4 producer goroutines each running a generated program of WriteMessage/WriteFrame x All/To/Except with items tagged (producer, counter), targets including a closed channel, a channel of another node and nil; flow control keeps every channel's backlog below the 64-item queue; incoming traffic and a paced consumer run concurrently; per channel every transport write must be exactly one whole frame, each addressed item appears exactly once, nothing else appears, per (producer, channel) order is submission order, forwarded frames keep their header, originated messages carry the node's ids and the link's own gapless sequence; non-trivial = >=2 producers on >=3 channels with at least one Except and one To; distinct by hash of the programs")
-	rec.Require("2+producers-3+channels-to-except", "closed-target", "foreign-target", "v1", "v2", "signed")
+	rec.Require("2+producers-3+channels-to-except", "closed-target", "foreign-target", "v1", "v2", "signed", "after-overflow-and-recovery")
 	evid.Check(t, rec, evid.N(300, 800), func(t *rapid.T) {
 		w := &c11World{}
 		w.nch = rapid.IntRange(2, 5).Draw(t, "nch")
@@ -107,6 +108,10 @@ func TestC11FanOut(t *testing.T) {
 			w.pacing = sim.Pacing{Kind: "bursty", Burst: rapid.IntRange(2, 9).Draw(t, "burst"), Sleep: time.Duration(rapid.IntRange(200, 2000).Draw(t, "bsleep_us")) * time.Microsecond}
 		}
 		w.incoming = rapid.IntRange(0, 30).Draw(t, "incoming")
+		w.overflowFirst = -1
+		if rapid.IntRange(0, 2).Draw(t, "overflow_first") == 0 {
+			w.overflowFirst = rapid.IntRange(0, w.nch-1).Draw(t, "overflow_channel")
+		}
 		for _, prog := range w.programs {
 			for _, o := range prog {
 				if o.target == -1 {
@@ -145,6 +150,9 @@ func TestC11FanOut(t *testing.T) {
 		}
 		if w.key != nil {
 			cls = append(cls, "signed")
+		}
+		if w.overflowFirst >= 0 {
+			cls = append(cls, "after-overflow-and-recovery")
 		}
 		rec.Case(nt, evid.HashS(w.describe()), cls...)
 		if nt && rec.WantSample("scenario") {
@@ -262,6 +270,40 @@ func runC11(w *c11World) error {
 	if foreignCh == nil {
 		return fmt.Errorf("BROKEN: foreign channel did not open")
 	}
+	// optionally one channel has been through a queue overflow before the program starts: its transport stalls,
+	// more items than the queue holds are written, it recovers and drains. Afterwards the backlog stays below
+	// the bound again, so nothing of the program may be dropped on it.
+	preWrites := make([]int, w.nch)
+	if w.overflowFirst >= 0 {
+		vp := pipes[w.overflowFirst]
+		vp.BlockWrites()
+		for k := 0; k < 80; k++ {
+			if err := n.WriteMessageAll(&common.MessageDebug{TimeBootMs: uint32(k), Ind: 99, Value: 2.5}); err != nil {
+				return fmt.Errorf("BROKEN: prologue write: %v", err)
+			}
+			for c, p := range pipes {
+				if c != w.overflowFirst {
+					p.WaitWrites(k-20, bound)
+				}
+			}
+		}
+		vp.UnblockWrites()
+		prev := -1
+		for k := 0; k < 400; k++ {
+			cur := vp.NumWrites()
+			if cur == prev && k > 3 {
+				break
+			}
+			prev = cur
+			time.Sleep(2 * time.Millisecond)
+		}
+		for c, p := range pipes {
+			if c != w.overflowFirst {
+				p.WaitWrites(80, bound)
+			}
+			preWrites[c] = p.NumWrites()
+		}
+	}
 	// expectations
 	exp := make([]int64, w.nch) // items addressed to channel c so far (for flow control)
 	type item struct {
@@ -341,7 +383,7 @@ func runC11(w *c11World) error {
 				for {
 					ok := true
 					for _, c := range ts {
-						if atomic.LoadInt64(&exp[c])-int64(pipes[c].NumWrites()) >= 24 {
+						if atomic.LoadInt64(&exp[c])-int64(pipes[c].NumWrites()-preWrites[c]) >= 24 {
 							ok = false
 						}
 					}
@@ -409,8 +451,8 @@ func runC11(w *c11World) error {
 	}
 	// wait for delivery
 	for c := 0; c < w.nch; c++ {
-		if !pipes[c].WaitWrites(len(want[c]), bound) {
-			return fmt.Errorf("channel %d: %d of %d addressed items reached the wire within %v (dropped although the backlog never exceeded 24)", c, pipes[c].NumWrites(), len(want[c]), bound)
+		if !pipes[c].WaitWrites(preWrites[c]+len(want[c]), bound) {
+			return fmt.Errorf("channel %d: %d of %d addressed items reached the wire within %v (dropped although the backlog never exceeded 24)", c, pipes[c].NumWrites()-preWrites[c], len(want[c]), bound)
 		}
 	}
 	time.Sleep(3 * time.Millisecond) // anything extra would show up now
@@ -418,11 +460,11 @@ func runC11(w *c11World) error {
 		return fmt.Errorf("a write naming a foreign channel reached the other node's transport")
 	}
 	for c := 0; c < w.nch; c++ {
-		writes := pipes[c].Writes()
+		writes := pipes[c].Writes()[preWrites[c]:]
 		type pos struct{ p, i int }
 		seen := map[item]int{}
 		last := map[int]int{}
-		originated := 0
+		originated := preWrites[c] // the prologue consisted of originated messages only
 		for k, b := range writes {
 			f, nbytes, err := ref.Parse(b)
 			if err != nil || nbytes != len(b) {
